@@ -189,3 +189,62 @@ func (w *World) DoTLS(r *HTTPReq, headOnly bool) *HTTPResult {
 	}
 	return res
 }
+
+// Pending is a request in flight on a scheduler-owned connection.
+type Pending struct {
+	Res  *HTTPResult
+	e    *sim.End
+	done bool
+}
+
+// Start sends a request without waiting; several may be in flight at once.
+func (w *World) Start(r *HTTPReq) *Pending {
+	p := &Pending{Res: &HTTPResult{}}
+	e, err := w.S.Connect(r.Name, r.From, w.GW.Addr)
+	if err != nil {
+		p.Res.Err, p.done = err.Error(), true
+		return p
+	}
+	p.e = e
+	e.Opaque, e.Peer.Opaque = true, true
+	e.OnEOF = func(rst bool) { p.Res.EOF, p.Res.RST = true, rst }
+	e.Send(r.Bytes())
+	return p
+}
+
+// Done reports (and records) completion of the response.
+func (p *Pending) Done(w *World) bool {
+	if p.done {
+		return true
+	}
+	resp, body, ok := codec.FullResponse(p.e.Recv, p.Res.EOF)
+	if ok && resp != nil {
+		p.Res.Status, p.Res.Header, p.Res.Body = resp.StatusCode, resp.Header, body
+		p.Res.Seq, p.done = w.S.Seq, true
+	} else if p.Res.EOF {
+		p.done = true
+	}
+	return p.done
+}
+
+// WaitAll runs the simulation until every pending request has a response, the server closed,
+// or the bound expired.
+func (w *World) WaitAll(ps []*Pending, bound time.Duration) {
+	w.S.Run(func() bool {
+		all := true
+		for _, p := range ps {
+			if !p.Done(w) {
+				all = false
+			}
+		}
+		return all
+	}, 40000, bound)
+	for _, p := range ps {
+		if !p.Done(w) && p.Res.Status == 0 {
+			p.Res.Timeout = true
+		}
+		if p.e != nil && !p.e.Closed {
+			p.e.Shut()
+		}
+	}
+}
